@@ -646,6 +646,7 @@ def sym_sqrt(x):
         r = z3.Real("sqrt!%d" % cx.fresh_id())
         cx.memo[key] = r
         cx.axiom(z3.And(r >= 0, r * r == t), about=r)
+        cx.rules.append((r, 2, t))
         cx.obligation(t >= 0, "sqrt of a negative value")
         cx.witness_defs[r.decl().name()] = ("sqrt", t)
     return SReal(r)
@@ -774,6 +775,7 @@ class Ctx(object):
         self.memo = {}
         self.witness_defs = {}
         self.inputs = {}        # name -> term   (declared symbolic inputs)
+        self.rules = []         # (z3 var, power, z3 term): var^power == term, for vf.poly
         self.notes = {}
         self.pending_new = []
         self.solver = z3.Solver()
@@ -1047,8 +1049,12 @@ class Ctx(object):
             out[name] = model_value(val)
         return out
 
-    def check(self, label, goal, detail=None):
-        """assert goal on this path: unsat(pc & ~goal) or record a candidate"""
+    def check(self, label, goal, detail=None, hyps=None):
+        """assert goal on this path: unsat(pc & ~goal) or record a candidate.
+        hyps: an explicit list of z3 hypotheses to use instead of the path condition (each
+        must already be a fact of this path -- an axiom, a proved lemma, a definition);
+        proving from fewer hypotheses is sound and keeps polynomial queries small.  If that
+        query does not come back unsat the full path condition is used."""
         self.checks_on_path += 1
         if isinstance(goal, (bool,) + _NPBOOL):
             if goal:
@@ -1061,6 +1067,17 @@ class Ctx(object):
                 self.stats.identity += 1
                 return True
         t0 = time.time()
+        if hyps is not None:
+            sx = z3.Solver()
+            sx.set("timeout", self.query_timeout_ms)
+            for h in hyps:
+                sx.add(h)
+            sx.add(z3.Not(g))
+            rr = str(sx.check())
+            self.stats.solver_s += time.time() - t0
+            if rr == "unsat":
+                self.stats.queries["unsat"] += 1
+                return True
         r, m = self.solve(z3.Not(g))
         self.stats.queries[r] += 1
         if r == "unsat":
@@ -1069,6 +1086,25 @@ class Ctx(object):
                      time.time() - t0, list(self.prefix[:self.pos]), detail)
         self.results.append(res)
         return False
+
+    def pc_about(self, names):
+        """the path-condition literals and axioms that mention only the given variables"""
+        names = set(names)
+        return [h for h in self.pc + self.axioms if term_vars(h) and term_vars(h) <= names]
+
+    def lemma(self, label, goal):
+        """prove goal on this path and, when proved, keep it as a hypothesis for the later
+        queries (a derived fact, not an assumption)"""
+        ok = self.check(label, goal)
+        if ok and not isinstance(goal, (bool,) + _NPBOOL):
+            self.axioms.append(z3.simplify(bool_term(goal)))
+        return ok
+
+    def lemma_eq(self, label, a, b):
+        ok = self.check_eq(label, a, b)
+        if ok and (is_sym(a) or is_sym(b)):
+            self.axioms.append(real_term(a) == real_term(b))
+        return ok
 
     def check_eq(self, label, a, b, detail=None):
         """equality goal, term identity first"""
@@ -1093,7 +1129,21 @@ class Ctx(object):
                     return True
             except z3.Z3Exception:
                 pass
+        if not z3.is_bool(ta) and self.rules:
+            from . import poly
+            if poly.equal(ta, tb, self.rules):
+                self.stats.identity += 1
+                self.checks_on_path += 1
+                return True
         return self.check(label, wrap(ta == tb), detail)
+
+    def define(self, prefix, value):
+        """fresh real v with v == value (a definition: expands in polynomial normal forms)"""
+        v = z3.Real("%s!%d" % (prefix, self.fresh_id()))
+        self.axioms.append(v == real_term(value))
+        self.solver.add(v == real_term(value))
+        self.rules.append((v, 1, real_term(value)))
+        return SReal(v)
 
     def check_root(self, label, got, num, den=1, alts=()):
         """claim: got == sqrt(num)/den (den > 0).  Tried as a term identity against the
@@ -1131,6 +1181,61 @@ class Ctx(object):
                 continue
             self.notes.setdefault("assumed_domain", set()).add(what)
             self.assume(wrap(t))
+        self.obligs = keep
+
+    def certify_obligations(self, sos, scales=(1, fractions.Fraction(1, 4), fractions.Fraction(1, 2), 2, 4)):
+        """discharge pending domain obligations of the forms t >= 0 and -1 <= u <= 1 with a
+        sum-of-squares certificate: sos is a list of (label, [p_1..p_k]) with the claim
+        t == scale * sum p_i^2 (resp. 1 - u^2 == ...) decided by polynomial normal form modulo
+        the path's relations; the (trivial) consequence is then confirmed by the solver from
+        that single equation.  Obligations without a certificate stay pending."""
+        from . import poly
+        keep = []
+        for t, what in self.obligs:
+            targets = []
+            if z3.is_app_of(t, z3.Z3_OP_GE) and z3.is_rational_value(t.children()[1]) and t.children()[1].numerator_as_long() == 0:
+                targets = [(t.children()[0], t)]
+            elif z3.is_app_of(t, z3.Z3_OP_LE) and z3.is_rational_value(t.children()[0]) and t.children()[0].numerator_as_long() == 0:
+                targets = [(t.children()[1], t)]
+            elif z3.is_and(t) and len(t.children()) == 2:
+                u = None
+                for c in t.children():
+                    if z3.is_app_of(c, z3.Z3_OP_GE) or z3.is_app_of(c, z3.Z3_OP_LE):
+                        a, b = c.children()
+                        u = a if not z3.is_rational_value(a) else b
+                if u is not None:
+                    targets = [(1 - u * u, t)]
+            done = False
+            for tt, goal in targets:
+                for lab, ps in sos:
+                    ssum = None
+                    for q in ps:
+                        qt = real_term(q)
+                        ssum = qt * qt if ssum is None else ssum + qt * qt
+                    for sc in scales:
+                        if poly.equal(tt, z3.RealVal(fractions.Fraction(sc)) * ssum, self.rules):
+                            fresh = [z3.Real("sos!%d" % self.fresh_id()) for _ in ps]
+                            body = None
+                            for f in fresh:
+                                body = f * f if body is None else body + f * f
+                            T = z3.Real("sosT!%d" % self.fresh_id())
+                            hy = [T == z3.RealVal(fractions.Fraction(sc)) * body]
+                            g = T >= 0
+                            sx = z3.Solver()
+                            sx.set("timeout", 5000)
+                            sx.add(hy[0], z3.Not(g))
+                            if str(sx.check()) == "unsat":
+                                self.stats.queries["unsat"] += 1
+                                self.axioms.append(z3.simplify(tt >= 0))
+                                self.notes.setdefault("certified", []).append("%s by %s x %s" % (what, sc, lab))
+                                done = True
+                            break
+                    if done:
+                        break
+                if done:
+                    break
+            if not done:
+                keep.append((t, what))
         self.obligs = keep
 
     def discharge_obligations(self):
